@@ -71,7 +71,10 @@ int c_aggregate(int nval, int operator, int maxnan, int * aggindex,
             agg += inp;
         }
         else if (operator == 2){
-            agg = inp > agg ? inp : agg;
+            /* max of the non-missing values: missing values are skipped
+             * and the first valid value of the group initialises agg */
+            if(!isnan(inputs[i]))
+                agg = (nagg == 1 || inp > agg) ? inp : agg;
         }
         else if (operator == 3){
             agg = inp;
